@@ -1,10 +1,14 @@
 SPECIFICATION Spec
 CONSTANTS
-  Roles = {"client_gm", "server_gm", "server_auto_gm", "client_tls", "server_tls", "server_auto_tls", "client_tls10", "server_tls10"}
-  InjTypes = {"HREQ", "CH", "SH", "NST", "CERT", "CERT_RSA", "SKE", "CREQ", "SHD", "CKE", "CV", "FIN", "CSTATUS", "NPN", "UNK", "CERT_RSA2"}
-  Truncs = {"body1", "bodyhalf", "bodyminus1", "len+1", "len-1", "len0", "lenmax", "inner+", "inner-"}
+  Roles = {"client_gm", "server_gm", "server_auto_gm", "client_tls", "server_tls", "server_auto_tls", "client_tls10", "server_tls10", "client_tls_ecdhe"}
+  InjTypes = {"HREQ", "CH", "SH", "NST", "CERT", "CERT_RSA", "SKE", "CREQ", "SHD", "CKE", "CV", "FIN", "CSTATUS", "NPN", "UNK", "CERT_RSA2", "CERT_SM2"}
+  Truncs = {"body1", "bodyhalf", "bodyminus1", "len+1", "len-1", "len0", "lenmax", "inner+", "inner-",
+            "cutend2", "cutend3", "cutend4", "cutend5", "cutend8", "cutend16", "cutend32", "cutend64"}
   Versions = {0, 2, 256, 257, 512, 768, 769, 770, 771, 772, 1024, 65535}
   SuiteRewrites = {"empty", "unknown", "unknown_first", "odd", "ecdhe_only", "scsv"}
+  Scripts = {"none", "omit_cv", "dup_cv", "dup_cke", "noccs_plainfin", "noccs_plainfin_hreq", "fin_before_ccs", "ccs_twice", "appdata_before_fin"}
+  Policies = {"none", "request", "requireany", "verifyifgiven", "requireandverify"}
+  CutMax = 100
   SelfMals = {"hi01", "hi80", "hiff", "lo+1", "lo-1", "zero"}
   ClientAuth = {TRUE, FALSE}
 INVARIANTS NeverCompleteAfterDeviation BenignCompletes
